@@ -28,6 +28,7 @@ LOADER_FUNCTIONS = [
     ("game/agent/interface.py", "AbstractAgent", "model_post_init"),
     ("game/agent/actions/manager.py", "ActionManager", "__init__"),
     ("session/episode_schedule.py", "EpisodeListScheduler", "__call__"),
+    ("simulator/network/airspace.py", "AirSpace", "set_frequency_max_capacity_mbps"),
 ]
 
 
@@ -139,14 +140,14 @@ def _consumes_argument(fn: ast.FunctionDef) -> List[str]:
 SOFTWARE_DIRS = ["simulator/system/services", "simulator/system/applications"]
 
 
-def _software_inits() -> Tuple[List[Tuple[str, str, str]], List[Tuple[str, str]]]:
+def _software_inits(with_guarded: bool = False):
     """Every `__init__` of a software class: (class, attribute, option) for each plain application of a configured option
     (`self.attr = self.config.opt`, optionally through one constructor call and / or under `if self.config.opt is not None`),
     and (class, statement) for every OTHER statement that mentions `self.config` (a loop, a method call fed with configured
     values, a test of anything but the option itself): those make the option's effect depend on what else is true when the
     software is constructed."""
     from harness.lib.core import SRC
-    applied, other = [], []
+    applied, guarded, other = [], [], []
     files = [SRC / "simulator/system/software.py"]
     for d in SOFTWARE_DIRS:
         files += sorted((SRC / d).rglob("*.py"))
@@ -160,14 +161,14 @@ def _software_inits() -> Tuple[List[Tuple[str, str, str]], List[Tuple[str, str]]
             v = v.args[0]
         return isinstance(v, ast.Attribute) and len(cfg_opts(v)) == 1 and ast.unparse(v) == f"self.config.{v.attr}"
 
-    def handle(cls: str, st: ast.stmt, guarded_by=None):
+    def handle(cls: str, st: ast.stmt, guarded_by=None, own_state_guard=False):
         if not cfg_opts(st):
             return
         if isinstance(st, ast.Assign) and len(st.targets) == 1 and isinstance(st.targets[0], ast.Attribute) \
                 and ast.unparse(st.targets[0].value) == "self" and plain_value(st.value):
             opt = cfg_opts(st.value)[0]
             if guarded_by in (None, opt):
-                applied.append((cls, st.targets[0].attr, opt))
+                (guarded if own_state_guard else applied).append((cls, st.targets[0].attr, opt))
                 return
         if isinstance(st, ast.If) and not st.orelse and guarded_by is None:
             t = ast.unparse(st.test)
@@ -179,7 +180,7 @@ def _software_inits() -> Tuple[List[Tuple[str, str, str]], List[Tuple[str, str]]
             if not o and "operating_state" not in t and not any(isinstance(n, ast.Call) for n in ast.walk(st.test)):
                 # a test of the object's own fresh attributes (e.g. the starting health just assigned), no call
                 for sub in st.body:
-                    handle(cls, sub, guarded_by=None)
+                    handle(cls, sub, guarded_by=None, own_state_guard=True)
                 return
         other.append((cls, ast.unparse(st).split("\n")[0][:160]))
 
@@ -190,7 +191,37 @@ def _software_inits() -> Tuple[List[Tuple[str, str, str]], List[Tuple[str, str]]
                 if isinstance(m, ast.FunctionDef) and m.name == "__init__":
                     for st in m.body:
                         handle(c.name, st)
-    return sorted(applied), sorted(other)
+    if with_guarded:
+        return sorted(applied), sorted(guarded), sorted(other)
+    return sorted(applied + guarded), sorted(other)
+
+
+def _software_chains() -> List[Tuple[str, List[str]]]:
+    """software name (the class's `discriminator=`) -> the classes whose constructors run when it is built, base class first:
+    the chain of first bases that are themselves classes of the software packages, up to `Software`."""
+    from harness.lib.core import SRC
+    files = [SRC / "simulator/system/software.py"]
+    for d in SOFTWARE_DIRS:
+        files += sorted((SRC / d).rglob("*.py"))
+    classes = {}
+    for f in files:
+        for c in [n for n in ast.walk(ast.parse(f.read_text())) if isinstance(n, ast.ClassDef)]:
+            disc = next((k.value.value for k in c.keywords if k.arg == "discriminator" and isinstance(k.value, ast.Constant)), None)
+            classes[c.name] = ([ast.unparse(b) for b in c.bases], disc)
+    out = []
+    for name, (bases, disc) in classes.items():
+        if not disc:
+            continue
+        chain = [name]
+        cur = name
+        while cur != "Software":
+            nxt = next((b for b in classes[cur][0] if b in classes), None)
+            if nxt is None:
+                raise ValueError(f"software class {name}: base chain leaves the software packages at {cur}")
+            chain.append(nxt)
+            cur = nxt
+        out.append((disc, list(reversed(chain))))
+    return sorted(out)
 
 
 def emit() -> str:
@@ -218,10 +249,15 @@ def emit() -> str:
     game_fc = find_method(class_def(parse("game/game.py"), "PrimaiteGame"), "from_config")
     durs = {}
     for node in ast.walk(game_fc):
-        if isinstance(node, ast.Call) and isinstance(node.func, ast.Attribute) and node.func.attr == "get" and len(node.args) == 2 and \
-                isinstance(node.args[0], ast.Constant) and node.args[0].value in ("start_up_duration", "shut_down_duration") and \
-                isinstance(node.args[1], ast.Constant):
-            durs[node.args[0].value] = node.args[1].value
+        # node_cfg.get("start_up_duration", defaults_config.get("node_start_up_duration", 3)): own value, else the defaults
+        # section's, else the literal
+        if isinstance(node, ast.Call) and ast.unparse(node.func) == "node_cfg.get" and len(node.args) == 2 and \
+                isinstance(node.args[0], ast.Constant) and node.args[0].value in ("start_up_duration", "shut_down_duration"):
+            inner = node.args[1]
+            key = node.args[0].value
+            if isinstance(inner, ast.Call) and ast.unparse(inner.func) == "defaults_config.get" and len(inner.args) == 2 and \
+                    isinstance(inner.args[0], ast.Constant) and inner.args[0].value == "node_" + key and isinstance(inner.args[1], ast.Constant):
+                durs[key] = inner.args[1].value
     if set(durs) != {"start_up_duration", "shut_down_duration"}:
         raise ValueError("node_cfg.get('start_up_duration', n) / shut_down_duration not found")
     # the defaults section: key tested == key read
@@ -323,7 +359,53 @@ def emit() -> str:
     for rel, cls, fn in LOADER_FUNCTIONS:
         f = find_method(class_def(parse(rel), cls), fn)
         consumed += [(f"{cls}.{fn}", x.replace('"', "'")) for x in _consumes_argument(f)]
-    sw_applied, sw_other = _software_inits()
+    sw_applied, sw_guarded, sw_other = _software_inits(with_guarded=True)
+    sw_chains = _software_chains()
+    # airspace: registered frequencies and the access point's default one
+    air = parse("simulator/network/airspace.py")
+    freqs, freq_consts = [], {}
+    for st in air.body:
+        if isinstance(st, ast.Assign) and isinstance(st.value, ast.Call) and ast.unparse(st.value.func) == "AirSpaceFrequency":
+            kw = {k.arg: k.value.value for k in st.value.keywords if isinstance(k.value, ast.Constant)}
+            if "name" not in kw or "data_rate_bps" not in kw or float(kw["data_rate_bps"]) != int(kw["data_rate_bps"]):
+                raise ValueError("AirSpaceFrequency registration not recognised")
+            freqs.append((kw["name"], int(kw["data_rate_bps"])))
+            freq_consts[ast.unparse(st.targets[0])] = kw["name"]
+    wni = class_def(air, "WirelessNetworkInterface")
+    dflt_freq = [freq_consts.get(ast.unparse(st.value)) for st in wni.body if isinstance(st, ast.AnnAssign) and ast.unparse(st.target) == "frequency"]
+    cap_src = ast.unparse(find_method(class_def(air, "AirSpace"), "set_frequency_max_capacity_mbps"))
+    cap_shape = "self.frequencies[freq].data_rate_bps = mbps * 1024 * 1024" in cap_src
+    # wireless router: port 1 = access point, port 2 = router interface; every section its from_config applies
+    wr = class_def(parse("simulator/network/hardware/nodes/network/wireless_router.py"), "WirelessRouter")
+    wr_ports = [ast.unparse(n.args[0].func) for n in ast.walk(find_method(wr, "__init__"))
+                if isinstance(n, ast.Call) and ast.unparse(n.func) == "self.connect_nic"]
+    wr_fc = ast.unparse(find_method(wr, "from_config"))
+    wr_sections = [k for k in ("router_interface", "wireless_access_point", "acl", "routes", "default_route", "operating_state") if f"'{k}'" in wr_fc]
+    # the defaults section: every key the loader looks for and what it does with it
+    landing = []
+    for node in ast.walk(game_fc):
+        if isinstance(node, ast.If):
+            for cmp_ in [node.test] + (list(node.test.values) if isinstance(node.test, ast.BoolOp) else []):
+                if isinstance(cmp_, ast.Compare) and len(cmp_.ops) == 1 and isinstance(cmp_.ops[0], ast.In) \
+                        and ast.unparse(cmp_.comparators[0]) == "defaults_config" and isinstance(cmp_.left, ast.Constant):
+                    for sub in node.body:
+                        landing.append((cmp_.left.value, ast.unparse(node.test).replace('"', "'"), ast.unparse(sub).split("\n")[0].replace('"', "'")[:120]))
+        if isinstance(node, ast.Call) and ast.unparse(node.func) == "defaults_config.get" and isinstance(node.args[0], ast.Constant):
+            landing.append((node.args[0].value, "get", ast.unparse(node).replace('"', "'")))
+    landing = sorted(set(landing))
+    # ACL rule loops: the address keys they read (shipped spelling first, documented spelling as fallback)
+    acl_keys = []
+    for rel, cls in (("simulator/network/hardware/nodes/network/router.py", "Router"), ("simulator/network/hardware/nodes/network/firewall.py", "Firewall"),
+                     ("simulator/network/hardware/nodes/network/wireless_router.py", "WirelessRouter")):
+        fc = find_method(class_def(parse(rel), cls), "from_config")
+        for call in [n for n in ast.walk(fc) if isinstance(n, ast.Call) and isinstance(n.func, ast.Attribute) and n.func.attr == "add_rule"]:
+            kw = {k.arg: ast.unparse(k.value).replace('"', "'") for k in call.keywords}
+            acl_keys.append((cls, kw.get("src_ip_address", "?"), kw.get("dst_ip_address", "?"), kw.get("src_wildcard_mask", "?"),
+                             kw.get("dst_wildcard_mask", "?")))
+    scan_default = _field_default("simulator/network/hardware/base.py", "Node", "node_scan_duration")
+    opts_cls = class_def(parse("game/game.py"), "PrimaiteGameOptions")
+    ep_len = [st.value.value for st in opts_cls.body if isinstance(st, ast.AnnAssign) and ast.unparse(st.target) == "max_episode_length"
+              and isinstance(st.value, ast.Constant)]
     # OfficeLANAdder: constants, guards, name / address templates and the wiring calls, in source order
     cr = parse("simulator/network/creation.py")
     adder = class_def(cr, "OfficeLANAdder")
@@ -392,6 +474,24 @@ def emit() -> str:
               f"def constantSchedulerCopies : Bool := {'true' if const_copies else 'false'}",
               "/-- statements of loader functions that change the mapping they were given -/",
               "def loaderConsumesArgument : List (String × String) := [" + ", ".join(f"({_lean_str(a)}, {_lean_str(b)})" for a, b in consumed) + "]",
+              "/-- software name → constructor chain, base class first -/",
+              "def softwareChains : List (String × List String) := [" + ", ".join(
+                  f"({_lean_str(n)}, [" + ", ".join(_lean_str(c) for c in ch) + "])" for n, ch in sw_chains) + "]",
+              "def softwareInitGuardedApplies : List (String × String × String) := [" + ", ".join(
+                  "(" + ", ".join(_lean_str(x) for x in t) + ")" for t in sw_guarded) + "]",
+              "def airspaceFrequencies : List (String × String) := [" + ", ".join(f"({_lean_str(n)}, {_lean_str(str(v))})" for n, v in freqs) + "]",
+              f"def wirelessDefaultFrequency : String := {_lean_str(dflt_freq[0] if len(dflt_freq) == 1 and dflt_freq[0] else '?')}",
+              f"def airspaceCapacityInMbps : Bool := {'true' if cap_shape else 'false'}",
+              "def wirelessRouterPorts : List String := [" + ", ".join(_lean_str(x) for x in wr_ports) + "]",
+              "def wirelessRouterSections : List String := [" + ", ".join(_lean_str(x) for x in wr_sections) + "]",
+              "def defaultsLanding : List (String × String × String) := [",
+              *["  (" + ", ".join(_lean_str(x) for x in t) + ")" + ("," if i < len(landing) - 1 else "") for i, t in enumerate(landing)],
+              "]",
+              "def aclAddressKeys : List (String × String × String × String × String) := [",
+              *["  (" + ", ".join(_lean_str(x) for x in t) + ")" + ("," if i < len(acl_keys) - 1 else "") for i, t in enumerate(acl_keys)],
+              "]",
+              f"def nodeScanDefault : Nat := {scan_default}",
+              f"def episodeLengthDefault : Nat := {ep_len[0] if len(ep_len) == 1 else 0}",
               "/-- software constructors: (class, live attribute, option) applied unconditionally -/",
               "def softwareInitApplies : List (String × String × String) := ["]
     lines += ["  (" + ", ".join(_lean_str(x) for x in t) + ")" + ("," if i < len(sw_applied) - 1 else "") for i, t in enumerate(sw_applied)]
